@@ -286,9 +286,9 @@ func (s *JSONDB) newFile(dagFile string, t time.Time, requestID string) (string,
 func (s *JSONDB) latestToday(dagFile string, day time.Time, latestStatusToday bool) (string, error) {
 	var pattern string
 	if latestStatusToday {
-		pattern = fmt.Sprintf("%s.%s*.*.dat", s.prefixWithDirectory(dagFile), day.Format(dateFormat))
+		pattern = fmt.Sprintf("%s.%s*.*.dat", escapeGlob(s.prefixWithDirectory(dagFile)), day.Format(dateFormat))
 	} else {
-		pattern = fmt.Sprintf("%s.*.*.dat", s.prefixWithDirectory(dagFile))
+		pattern = fmt.Sprintf("%s.*.*.dat", escapeGlob(s.prefixWithDirectory(dagFile)))
 	}
 	matches, err := filepath.Glob(pattern)
 	if err != nil || len(matches) == 0 {
@@ -310,7 +310,13 @@ func (s *JSONDB) latest(pattern string, n int) []string {
 }
 
 func (s *JSONDB) globPattern(dagFile string) string {
-	return s.prefixWithDirectory(dagFile) + "*" + extDat
+	return escapeGlob(s.prefixWithDirectory(dagFile)) + "*" + extDat
+}
+
+// escapeGlob quotes the characters filepath.Glob treats as pattern syntax, so
+// that a DAG name (or data directory) containing them matches itself literally.
+func escapeGlob(path string) string {
+	return strings.NewReplacer(`\`, `\\`, `*`, `\*`, `?`, `\?`, `[`, `\[`).Replace(path)
 }
 
 func (s *JSONDB) prefixWithDirectory(dagFile string) string {
